@@ -23,6 +23,7 @@ META = {
     ),
 }
 META["explanation"] += ' C03.R3 also: no payload segment is formatted in decimal. C03.R6: no CommandInvalid guard reads a parameter before the statement that re-binds it from itself; no raw comparison of a parameter that is normalised by _check_idx().'
+META["explanation"] += " C03.R3's shape interpreter folds finite value sets, slices, calendar ranges, dict-display subscripts, AttrDict._hex and call-site constants; hex-written fields must not be read back in base 10 by the parser of the same code."
 
 CMD = "ramses_tx.command"
 
